@@ -197,6 +197,10 @@ func (c *Conn) readLoop(ctx context.Context) (header, error) {
 			return header{}, errors.New("received unmasked frame from client")
 		}
 
+		if c.client && h.masked {
+			return header{}, errors.New("received masked frame from server")
+		}
+
 		switch h.opcode {
 		case opClose, opPing, opPong:
 			err = c.handleControl(ctx, h)
